@@ -46,3 +46,50 @@ Theorem C11_replay_witness :
   /\ Reg.thr s 1 = PDone true /\ Reg.thr s 2 = PDone true.
 Proof. exact replay_once. Qed.
 Print Assumptions C11_replay_witness.
+
+(** ** Round "proofs": the two layers composed *)
+From Coq Require Permutation.
+From WM Require GoChannel.SubOnce GoChannel.Monitor GoChannel.MonitorSound GoChannel.ReplayCompose.
+
+(** "every subscription receives every message of the topic exactly once" over BOTH layers, in the
+    vocabulary of the acceptor ([Monitor.count_recv] on the API history of subscription x): the
+    registry gives (p, x) exactly one Sender; that Sender is the [LSpawn] of the per-subscription
+    model (glue: the publications spawned on x are a permutation of those that have a Sender for
+    x); with a consumer that always Acks p is never received twice, and it is received exactly
+    once when its Sender has returned and x was never cancelled / closed. *)
+Theorem C11_replay_exactly_once_composed : forall pers blk fx gls x k cap0 fa ls p,
+  let g := grun (ginit pers blk fx) gls in
+  let a := srun (sinit cap0 fa) ls in
+  let h := MonitorSound.trace x (sinit cap0 fa) ls in
+  Permutation.Permutation (MonitorSound.spawn_pubs ls) (ReplayCompose.sender_pubs g x) ->
+  persistent g = true -> In x (subs g k) -> SubOnce.no_nack ls = true ->
+  In p (sent g) -> ptopic g p = k ->
+  nsenders g p x = 1
+  /\ In p (MonitorSound.spawn_pubs ls)
+  /\ Monitor.count_recv h x p <= 1
+  /\ (closing a = false -> forall t, Sub.thr a t = Sub.SDone p -> Monitor.count_recv h x p = 1).
+Proof. exact ReplayCompose.replay_exactly_once_composed. Qed.
+Print Assumptions C11_replay_exactly_once_composed.
+
+(** any mode, any subscription: with an acking consumer nothing is received twice *)
+Theorem C11_replay_at_most_once_composed : forall pers blk fx gls x cap0 fa ls p,
+  let g := grun (ginit pers blk fx) gls in
+  Permutation.Permutation (MonitorSound.spawn_pubs ls) (ReplayCompose.sender_pubs g x) ->
+  SubOnce.no_nack ls = true ->
+  Monitor.count_recv (MonitorSound.trace x (sinit cap0 fa) ls) x p <= 1.
+Proof. exact ReplayCompose.replay_at_most_once_composed. Qed.
+Print Assumptions C11_replay_at_most_once_composed.
+
+(** the Layer A half on its own: an acking consumer, one Sender per publication *)
+Theorem C11_acking_exactly_once : forall x cap0 fx ls,
+  SubOnce.no_nack ls = true -> NoDup (MonitorSound.spawn_pubs ls) ->
+  forall t p, closing (srun (sinit cap0 fx) ls) = false ->
+  Sub.thr (srun (sinit cap0 fx) ls) t = Sub.SDone p ->
+  Monitor.count_recv (MonitorSound.trace x (sinit cap0 fx) ls) x p = 1
+  /\ exists c, c < next (srun (sinit cap0 fx) ls)
+       /\ c_thr (copies (srun (sinit cap0 fx) ls) c) = t
+       /\ c_pub (copies (srun (sinit cap0 fx) ls) c) = p
+       /\ c_recv (copies (srun (sinit cap0 fx) ls) c) = true
+       /\ c_st (copies (srun (sinit cap0 fx) ls) c) = Acked.
+Proof. exact SubOnce.acking_exactly_once. Qed.
+Print Assumptions C11_acking_exactly_once.
